@@ -839,7 +839,9 @@ def _composite_keystone_aperture(x, y, center_circle_diameter,
             maxy = max(yy[1], yy[3])
             rangex = maxx - minx
             rangey = maxy - miny
-            samples = tuple(math.ceil(v) for v in (rangex/dx + gap/dx, rangey/dx + gap/dx))  # NOQA - length
+            # +2: as for the keystone windows, the window is placed with int(center/dx)
+            # around ceil(n/2) and may otherwise miss the row or column that holds the seam
+            samples = tuple(math.ceil(v) + 2 for v in (rangex/dx + gap/dx, rangey/dx + gap/dx))  # NOQA - length
             cx = minx + rangex/2
             cy = miny + rangey/2
 
